@@ -96,6 +96,23 @@ CHECKS = {
          "status-time flag, plus agreement-only malformed / out-of-domain streams, debug and release builds.",
          "serde Vec/bool/u32 visitors and serde_cbor size_hint modelled, not verified; clock after 2000-01-01 and < 2^64 ms; reporting node's EID "
          "valid; fewer than 2^64-1 timestamps per millisecond; subject's source name < 2^64 bytes.", "DESIGN.md section 6 C12"),
+ "C14": ("Coq theorems C14_null_on_invalid / C14_null_on_empty / C14_from_cbor_outcomes (bundle_from_cbor on any buffer: NULL with the heap and the "
+         "allocation count untouched when the bytes do not decode or do not validate, never an abort — uses C06_decode_total), C14_valid_gives_bundle, "
+         "C14_agrees_with_rust_api, C14_roundtrip_through_ffi (for every well-formed bundle that validates: decoding its encoding through the interface "
+         "gives that bundle; validity, payload, metadata and re-encoding are those of the Rust API model; re-encoding = the bytes decoded), "
+         "C14_no_leak_no_double_free / C14_net_allocations_zero / C14_step_allocations / C14_balanced_from (for EVERY call sequence that respects "
+         "bp7.h — decided from the return values alone: arguments live and of the documented kind, every object given back once to its own free "
+         "function, any order — no call hits a dead or wrong-kind object, no library object remains, and the sum of the per-call allocation deltas "
+         "is 0; by a simulation invariant between the caller's book and the heap), C14_use_after_free_flagged, C14_aborts_only_on_caller_error, "
+         "C14_pinned_refuted (original ffi.rs: abort on undecodable input, 3 allocations leaked by examples/ffi/bp7-test.c). K-ffi channel: the real "
+         "extern \"C\" functions called through their C signatures in one child process per case (an abort is an outcome) under a counting "
+         "#[global_allocator]; the model predicts every return value and the exact change in live allocations of every call; all orders of "
+         "query/free calls <= 6 over one and two bundles, C01-domain / invalid / mutated / random / empty buffers, bundle_new_default under the "
+         "clock hook, the bp7-test.c sequence. PARTIAL: out-of-bounds reads/writes inside a call are runtime behaviour that neither the model nor "
+         "allocation counting can exhibit.",
+         "partial as stated; the C caller follows bp7.h (anything else is undefined behaviour in C and is never executed); bundle_new_default's "
+         "argument errors abort by design; Buffer.len is u32 (>= 4 GiB not modelled); allocation counts of Vec/String/Box/CString as observed "
+         "(no allocation for length 0) are tied by the channel, not derived from std.", "DESIGN.md section 6 C14"),
  "C16": ("Coq theorems C16_ippt (for every scope-flag value < 8, every primary without CRC, every target block of any type and every security "
          "header the transcription of IntegrityProtectedPlaintext::create equals the RFC 9173 3.7 concatenation written with the generic CBOR "
          "writer; C16_ippt_raw_flags says what happens beyond bit 2), C16_result_shape (compute_hmac yields exactly one (1, HMAC-SHA2(key, ippt)) "
@@ -120,8 +137,7 @@ CHECKS = {
 
 PENDING = {
 
- "C11": "check not built yet","C13": "check not built yet", "C14": "check not built yet",
- "C19": "check not built yet", "C20": "check not built yet",
+ "C11": "check not built yet","C13": "check not built yet","C19": "check not built yet", "C20": "check not built yet",
 }
 
 
